@@ -338,8 +338,15 @@ def run_feat(ctx, rng, idx):
         return cols
     try:
         f = featurizers.RotamerFeaturizer(buffer_width=b)
+        if idx % 3 == 0:
+            # the estimator has been used before, on other trajectories
+            f.fit([full[:7], full[3:5]])
+            _ = f.feature_trajectories_
         f.fit((t for t in trajs) if idx % 2 else list(trajs))
         got = f.feature_trajectories_
+        if f.buffer_width != b:
+            ctx.violation('featurizer.fit-rewrites-parameter',
+                          'buffer_width %r -> %r' % (b, f.buffer_width))
     except Exception as e:  # noqa
         ctx.crash('featurizer.raised', e)
         return
